@@ -20,6 +20,13 @@ BUILTIN_ENUMS = {
     'Color': ['Black', 'Blue', 'Green', 'Red', 'Cyan', 'Magenta', 'Yellow', 'White'],
     'ColorChoice': ['Always', 'AlwaysAnsi', 'Auto', 'Never'],
     'Ordering': ['Less', 'Equal', 'Greater'],
+    'ErrorKind': ['NotFound', 'PermissionDenied', 'ConnectionRefused', 'ConnectionReset', 'HostUnreachable', 'NetworkUnreachable',
+                  'ConnectionAborted', 'NotConnected', 'AddrInUse', 'AddrNotAvailable', 'NetworkDown', 'BrokenPipe', 'AlreadyExists',
+                  'WouldBlock', 'NotADirectory', 'IsADirectory', 'DirectoryNotEmpty', 'ReadOnlyFilesystem', 'FilesystemLoop',
+                  'StaleNetworkFileHandle', 'InvalidInput', 'InvalidData', 'TimedOut', 'WriteZero', 'StorageFull', 'NotSeekable',
+                  'QuotaExceeded', 'FileTooLarge', 'ResourceBusy', 'ExecutableFileBusy', 'Deadlock', 'CrossesDevices', 'TooManyLinks',
+                  'InvalidFilename', 'ArgumentListTooLong', 'Interrupted', 'Unsupported', 'UnexpectedEof', 'OutOfMemory', 'InProgress',
+                  'Other', 'Uncategorized'],
 }
 ORDERING_VALUES = {'Less': -1, 'Equal': 0, 'Greater': 1}
 
@@ -1003,7 +1010,7 @@ class Interp:
             for x in v.e:
                 self.drop_value(x)
         elif isinstance(v, OpaqueV):
-            if v.kind in ('BufWriter', 'File') and self.env is not None:
+            if v.kind in ('BufWriter', 'File', 'Receiver') and self.env is not None:
                 self.env.on_drop(self, v)
 
     # ---- calls
